@@ -82,13 +82,18 @@ def settings(tier):
         yield dict(zip(keys, combo))
 
 
+TOP_LEVEL = {"top-empty-dict": {}, "top-empty-list": [], "top-zero": 0, "top-zero-float": 0.0, "top-false": False,
+             "top-empty-str": "", "top-none": None, "top-list": [1], "top-str": "s", "top-int": 5, "top-dict": {"a": 1}}
+
+
 def e2e(kind, transport, value_name, setting, through_worker):
     x = Exec(kind, buckets="both" if transport != "inline" else "results")
     w = x.world
     viol = []
     summary = {}
     try:
-        val = values()[value_name]
+        top = value_name in TOP_LEVEL
+        val = TOP_LEVEL[value_name] if top else values()[value_name]
         s = dict(setting)
         if s.get("deferred_until") == "T":
             s["deferred_until"] = CLOCK.now() + timedelta(seconds=30, microseconds=7)
@@ -98,7 +103,7 @@ def e2e(kind, transport, value_name, setting, through_worker):
         async def main():
             await w.connect()
             await w.broker.queue_declare("q")
-            kw = dict(queue="q", id_="job-1_x", args={"v": val}, _connection=w.conn, **s)
+            kw = dict(queue="q", id_="job-1_x", args=val if top else {"v": val}, _connection=w.conn, **s)
             if transport == "args_id":
                 kw["args_id"] = "explicit-args"
             job = Job("job", **kw)
@@ -118,6 +123,8 @@ def e2e(kind, transport, value_name, setting, through_worker):
             return x.loop.handles, viol, summary
         job, key, args, params, k2, payload, real_payload, p2 = v
         want_payload = JSON_ENCODER.encode({"v": val}) if not isinstance(val, pydantic.BaseModel) else None
+        if top:
+            want_payload = "" if val is None else JSON_ENCODER.encode(val)
         if (k2.id_, k2.topic, k2.queue, k2.priority) != (key.id_, key.topic, key.queue, key.priority):
             viol.append(("key-differs", f"enqueued {key}, consumer received {k2}"))
         if k2.priority != s.get("priority", PrioritiesT.MEDIUM).value or k2.id_ != "job-1_x":
@@ -126,7 +133,7 @@ def e2e(kind, transport, value_name, setting, through_worker):
             viol.append(("payload-differs", f"enqueue() returned args {args!r}, consumer (after bucket lookup) has {real_payload!r}"))
         if want_payload is not None and args != want_payload:
             viol.append(("payload-differs", f"serialised args {args!r}, expected {want_payload!r}"))
-        if transport != "inline" and "__repid_payload_id" not in payload:
+        if transport != "inline" and "__repid_payload_id" not in payload and not (top and val is None and transport == "bucket"):
             viol.append(("transport", f"args bucket transport but the message payload is {payload!r}"))
         if p2 != params:
             diff = {f.name: (getattr(params, f.name), getattr(p2, f.name)) for f in dataclasses.fields(params)
@@ -143,7 +150,7 @@ def e2e(kind, transport, value_name, setting, through_worker):
         elif p2.result is not None and p2.result.ttl != s.get("result_ttl", timedelta(days=1)):
             viol.append(("params-differ", f"result_ttl {s.get('result_ttl')} received as {p2.result.ttl}"))
         summary = dict(payload=payload[:60], real=real_payload[:60])
-        if through_worker and not delayed:
+        if through_worker and not delayed and not top:
             worker = Worker(_connection=w.conn, graceful_shutdown_time=0.1, messages_limit=1, handle_signals=[])
 
             async def actor(v, m: MessageDependency):
@@ -266,7 +273,9 @@ def jobs(tier):
     cases = []
     for kind in ("mem", "redis", "amqp"):
         for tr in ("inline", "bucket", "args_id"):
-            for vn in values():
+            for vn in list(values()) + list(TOP_LEVEL):
+                if vn == "top-none" and tr == "args_id":
+                    continue  # an explicit args id without args refers to a bucket stored elsewhere
                 cases.append(dict(t="e2e", kind=kind, tr=tr, val=vn, setting={}, worker=True))
             for s in settings(tier):
                 s2 = {k: (v.name if isinstance(v, PrioritiesT) else v.total_seconds() if isinstance(v, timedelta) else v)
